@@ -19,6 +19,10 @@ func (s *S0) addA(v uint64) {
 	s.a = s.a + v
 }
 
+func (s S0) valA() uint64 {
+	return s.a + 1
+}
+
 '''
 
 HELPERS_REST = '''
@@ -123,6 +127,8 @@ STMTS = {
     "named-uint16": "var h16 U16 = 65535\nh16 = h16 + 1\nacc += uint64(h16)",
     "field-store-on-value": "tv := S0{a: 1}\ntv.a = 2\nacc += tv.a",
     "addr-of-define-local": "xa := uint64(1)\npa := &xa\n*pa = 4\nacc += xa",
+    "value-method-on-pointer": "pv := &S0{a: 2}\nacc += pv.valA()",
+    "value-method-on-new": "pn := new(S0)\npn.a = 4\nacc += pn.valA()",
     "pointer-method-on-value": "tv := S0{a: 1}\ntv.addA(5)\nacc += tv.a",
     "method-value": "pm := &S0{a: 2}\ngm := pm.getA\nacc += gm()",
     "variadic-call": "acc += sum3(1, 2, 3)",
